@@ -105,6 +105,11 @@ type Lemma struct {
 	Props []string
 }
 
+type KeyCtorDecl struct {
+	Name  string
+	Sorts []string
+}
+
 type GhostVar struct {
 	Name string
 	Sort string
@@ -121,19 +126,20 @@ type ContractFile struct {
 	Lemmas  []*Lemma
 	Sorts   []string
 	Ghosts  []GhostVar
+	KeyCtors []KeyCtorDecl
 	Axioms  []*Clause
 	Invs    []*Clause // named module invariants usable as inv(NAME)
 }
 
 var clauseKeywords = map[string]bool{
-	"requires": true, "ensures": true, "let": true, "postlet": true, "modifies": true, "loop": true, "dyn": true,
+	"requires": true, "ensures": true, "trusts": true, "let": true, "postlet": true, "modifies": true, "loop": true, "dyn": true,
 	"props": true, "flags": true, "cover": true, "nullable": true,
 	"assume": true, "show": true, "call": true, "havoc": true, "fresh": true, "set": true,
 }
 
 var topKeywords = map[string]bool{
 	"func": true, "iface": true, "extern": true, "spec": true, "keyfn": true, "subkeyfn": true, "wire": true, "lemma": true,
-	"sort": true, "ghost": true, "import": true, "axiom": true, "invariant": true, "strkeyfn": true,
+	"sort": true, "ghost": true, "keyctor": true, "import": true, "axiom": true, "invariant": true, "strkeyfn": true,
 }
 
 // ParseContractFile reads the //@ lines of one file.
@@ -202,6 +208,14 @@ func ParseContractFile(path, pkg string) (*ContractFile, error) {
 			cf.Imports[parts[0]] = strings.Trim(parts[1], "\"")
 		case "sort":
 			cf.Sorts = append(cf.Sorts, strings.Fields(s.rest)...)
+		case "keyctor":
+			// keyctor name(sort, sort): a ghost key family that no Go key builder produces
+			i := strings.Index(s.rest, "(")
+			if i < 0 || !strings.HasSuffix(strings.TrimSpace(s.rest), ")") {
+				return nil, fail(s.n, "keyctor name(sorts)")
+			}
+			r := strings.TrimSpace(s.rest)
+			cf.KeyCtors = append(cf.KeyCtors, KeyCtorDecl{Name: strings.TrimSpace(r[:i]), Sorts: splitNames(r[i+1 : len(r)-1])})
 		case "ghost":
 			parts := strings.SplitN(s.rest, ":", 2)
 			if len(parts) != 2 {
@@ -378,7 +392,7 @@ func isLabel(s string) bool {
 
 func parseFuncClause(fc *FuncContract, kw, rest string) error {
 	switch kw {
-	case "requires", "ensures", "cover":
+	case "requires", "ensures", "cover", "trusts":
 		cl, err := parseClause(kw, rest)
 		if err != nil {
 			return err
@@ -389,6 +403,11 @@ func parseFuncClause(fc *FuncContract, kw, rest string) error {
 		switch kw {
 		case "requires":
 			fc.Requires = append(fc.Requires, cl)
+		case "trusts":
+			// a postcondition that callers may assume but that is NOT verified against the body (reported as assumed)
+			cl.Kind = "ensures"
+			cl.Known = "trusted"
+			fc.Ensures = append(fc.Ensures, cl)
 		case "ensures":
 			fc.Ensures = append(fc.Ensures, cl)
 		case "cover":
